@@ -105,8 +105,8 @@ func TestConcurrency(t *testing.T) {
 			p := atomic.LoadInt64(&progress)
 			if p != last {
 				last, lastAt = p, time.Now()
-			} else if time.Since(lastAt) > 10*time.Second {
-				fmt.Fprintln(os.Stderr, "HANG: no client made progress for 10s; goroutines:")
+			} else if time.Since(lastAt) > 60*time.Second {
+				fmt.Fprintln(os.Stderr, "HANG: no client made progress for 60s; goroutines:")
 				_ = pprof.Lookup("goroutine").WriteTo(os.Stderr, 1)
 				os.Exit(97)
 			}
